@@ -69,6 +69,10 @@ func Harness_C31_ReloadSequences() {
 			if pendingAny && lastWriter != "prepare:"+n {
 				staleCommit = true
 			}
+			if _, has := prepared[n]; has && !pendingAny {
+				// same root cause: the proxy's single prepared flag was consumed by another namespace's commit
+				staleCommit = true
+			}
 			vs.TagB("staleCommit", staleCommit)
 			err := m.ReloadNamespaceCommit(n)
 			if v, ok := prepared[n]; ok {
